@@ -25,6 +25,7 @@ use std::os::raw::c_int;
 const P: &str = "C20";
 
 mod callbacks;
+mod configs;
 
 pub fn run(args: Vec<String>) -> i32 {
     dnp3::verif::run_with(args, |a| match a.check.as_str() {
@@ -2264,6 +2265,9 @@ fn c20(a: &ShardArgs) -> Result<(), String> {
             callbacks::promise_adapters(a, &mut r);
         }
         callbacks::builders(a, &mut r, if cfg!(miri) { 6 } else { a.n(150) as usize });
+        if !cfg!(miri) {
+            configs::configs(a, &mut r, a.n(60) as usize);
+        }
         if !cfg!(miri) {
             callbacks::control_adapter(a, &mut r, a.n(12) as usize);
         }
